@@ -319,9 +319,28 @@ const TAIL_OUT: [&str; 2] = ["t-inner", "t-outer"];
 
 fn build_family(f: &Family, n: u64) -> (String, Vec<String>) {
     let (mut src, mut expected) = (f.build)(n);
+    if f.name.ends_with("without-any-call") {
+        return (src, expected);
+    }
     src.push_str(TAIL_PROBE);
     expected.extend(TAIL_OUT.iter().map(|x| x.to_string()));
     (src, expected)
+}
+
+/// Declarations and reads only: no user function is defined or called anywhere in the program
+/// (the head and tail probes are left out), yet the liveness bound applies to it all the same.
+fn fam_liveness_no_calls(n: u64) -> (String, Vec<String>) {
+    let mut s = String::with_capacity(n as usize * 30 + 200);
+    let mut out: Vec<String> = Vec::new();
+    s.push_str("make zz_unused get 7\njasi (true) start\ncomot\nshout(\"never\")\nend\n");
+    for k in 0..n {
+        s.push_str(&format!("make v{k} get {k}\n"));
+    }
+    for k in 0..n {
+        s.push_str(&format!("shout(v{k})\n"));
+        out.push(k.to_string());
+    }
+    (s, out)
 }
 
 fn families() -> Vec<Family> {
@@ -337,6 +356,7 @@ fn families() -> Vec<Family> {
         Family { name: "loops-in-functions", target: "total_blocks", build: fam_total_blocks },
         Family { name: "declare-then-read", target: "liveness_events", build: fam_liveness },
         Family { name: "statements", target: "ops_per_function", build: fam_statements },
+        Family { name: "declare-then-read-without-any-call", target: "liveness_events", build: fam_liveness_no_calls },
     ]
 }
 
